@@ -85,6 +85,48 @@ func main() {
 		rules.DumpNasModel(core.NewCtx("C08", "quick", prog))
 		return
 	}
+	if prop == "absloop" {
+		// developer entry: stgverif absloop <pkgpath> <func>: one symbolic iteration of the function's (outermost) loops
+		prog, err := core.Load(core.RepoDir(), "")
+		if err != nil {
+			fmt.Println(err)
+			os.Exit(2)
+		}
+		fn := prog.Func(os.Args[2], os.Args[3])
+		if fn == nil {
+			fmt.Println("no such function")
+			os.Exit(2)
+		}
+		ex := core.NewExec()
+		ex.SymLoop = func(f *ssa.Function, h *ssa.BasicBlock) bool { return f == fn }
+		outs, err := ex.Run(fn, core.DefaultArgs(fn), nil)
+		if err != nil {
+			fmt.Println("error:", err)
+		}
+		for i, it := range ex.Iters {
+			fmt.Printf("--- iteration path %d conds=%v\n", i, it.Conds)
+			for k, v := range it.Next {
+				fmt.Printf("  %s: init %s, next %s\n", k, core.ArgName(it.Init[k]), core.ArgName(v))
+			}
+			for k, v := range it.Facts {
+				fmt.Printf("  fact %s = %v\n", k, v)
+			}
+			for _, ev := range it.Trace {
+				fmt.Printf("  event %s\n", ev.Callee)
+			}
+		}
+		for i, o := range outs {
+			fmt.Printf("--- outcome %d panicked=%v conds=%v\n", i, o.Panicked, o.Conds)
+			for j, r := range o.Ret {
+				fmt.Printf("  ret%d = %s\n", j, core.ArgName(r))
+			}
+			for k, v := range o.Facts {
+				fmt.Printf("  fact %s = %v\n", k, v)
+			}
+		}
+		fmt.Println("unsound:", ex.Unsound)
+		return
+	}
 	if prop == "drvdump" {
 		prog, err := core.Load(core.RepoDir(), "")
 		if err != nil {
